@@ -1262,6 +1262,9 @@ impl Property for C10 {
             1 => sel().prop_map(|sel| Ev::DropOp { sel }),
             // nor does dropping run() at a quiescent point and calling it again
             1 => Just(Ev::ReenterRun),
+            // nor does anything the broker sends for the OTHER direction: a PUBREL (for an exchange
+            // of its own, here one the client does not know) is answered, and frees nothing
+            1 => (1u16..5).prop_map(|pid| Ev::In(Inbound::Pubrel { pid, known: false })),
         ]
         .boxed();
         crowd(no_inbound(scenario(rm_small(), ev, 1..tier.pick(60, 200))))
